@@ -184,7 +184,7 @@ AllAtoms == StrAtoms \cup NumAtoms \cup BoolAtoms \cup DateAtoms \cup AnyAtoms \
             \cup {Btw(neg, lo, hi) : neg \in BOOLEAN, lo \in {S(sA)}, hi \in {S(sB)}}
 MixSyms == ScalarSyms \cup SetSyms \cup {<<"createdAt">>, <<"nosuch">>, <<"tags">>, <<"boss", "nosuch">>}
 MixQ == {Q([k |-> w, sym |-> sym, a |-> a]) : w \in {"atom", "anyOf", "allOf"}, sym \in MixSyms, a \in AllAtoms}
-        \cup {Q([k |-> "count", sym |-> sym, op |-> op, n |-> n]) : sym \in MixSyms, op \in {"eq", "lt"}, n \in {N(1), F2(3), S(sA), B(TRUE), D(1)}}
+        \cup {Q([k |-> "count", sym |-> sym, op |-> op, n |-> n]) : sym \in MixSyms, op \in {"eq", "lt"}, n \in {N(1), F2(3), S(sA), B(TRUE), D(1), Nil}}
         \cup {Q([k |-> "isEmpty", sym |-> sym]) : sym \in MixSyms} \cup {Q([k |-> "boolsym", sym |-> sym]) : sym \in MixSyms}
         \cup {[p |-> TRUEF, sort |-> <<[sym |-> sym, asc |-> TRUE]>>, skip |-> NoVal, limit |-> NoVal] : sym \in MixSyms}
         \* sub-queries over symbols that are no entity sets (scalars, string sets, maps, unknown names), also nested
